@@ -71,6 +71,7 @@ func TestDevBatch(t *testing.T) {
 	Avoid.MakeLenCap = strings.Contains(av, "7")
 	Avoid.NilDerefValue = strings.Contains(av, "8")
 	Avoid.EllipsisHint = strings.Contains(av, "9")
+	Avoid.AppendOverlap = strings.Contains(av, "a")
 	n := 0
 	fmt.Sscan(os.Getenv("C08_BATCH"), &n)
 	type cs struct {
